@@ -330,6 +330,24 @@ pub fn oracle(tier: &str, seed: u64) -> (u64, Vec<Finding>) {
                     }
                 }
             }
+            // (a') a knot at zero: the targets +0.0 and -0.0 are that knot whichever zero the abscissa vector holds (first, last or an interior
+            //      knot moved to zero by a shift of the whole vector); seeded change C16-11 ordered the zeros by total_cmp
+            {
+                let j0 = match tried % 3 { 0 => 0, 1 => n - 1, _ => r.below(n as u64) as usize };
+                let zero = if tried % 2 == 0 { 0.0f64 } else { -0.0f64 };
+                let xz: Vec<f64> = x.iter().enumerate().map(|(i, v)| if i == j0 { zero } else { v - x[j0] }).collect();
+                if xz.iter().all(|v| v.is_finite()) && xz.windows(2).all(|w| w[0] < w[1]) && y[j0] == y[j0] {
+                    for t in [0.0f64, -0.0f64] {
+                        tried += 1;
+                        match orun(checked, &xz, &y, &[t], m) {
+                            Err(e) => out.push(Finding { class: format!("in-range:panics mode={}", m.name()), what: format!("target {:?} at the knot {:?} (knot {} of {}) panicked: {}", t, xz[j0], j0, n, e), input: describe(checked, &xz, &y, &[t], m) }),
+                            Ok(v) => if v.len() != 1 || v[0] != y[j0] {
+                                out.push(Finding { class: format!("knot:wrong-ordinate mode={}", m.name()), what: format!("target {:?} at knot {} (x={:?}) returned {:?}, ordinate is {:e}", t, j0, xz[j0], v, y[j0]), input: describe(checked, &xz, &y, &[t], m) });
+                            }
+                        }
+                    }
+                }
+            }
             // (b) inside segments: on the line, between the ordinates
             let j = r.below(n as u64 - 1) as usize;
             // extended regimes: also the FIRST and the LAST segment (a random segment of 200 is almost never one of them)
